@@ -152,3 +152,62 @@ func runC02SecondTable(x *X) {
 		}
 	})
 }
+
+// family "rows-rebuilt-cell-by-cell": after the build history, rows are duplicated the way a caller copies a row by
+// hand - a new row to which the source row's cells (values taken from Cells(), or the header cells from Headers())
+// are added one by one - and the new rows are attached to the same table (a repeated header as footer, a
+// duplicated row) or to a fresh one.  Every copied cell sits at the same column index it had in its source row.
+func runC02CellByCell(x *X) {
+	depth := x.Pick(3, 4)
+	cfg := &BuildCfg{Counts: []int{0, 1, 2, 3}, MaxDetached: 1, AllowNewRowSized: true}
+	x.Explore("rows-rebuilt-cell-by-cell", ExploreOpts{ShardDepth: 2, Bound: fmt.Sprintf("table built by every sequence of <=%d operations; then {every row, the header, both} rebuilt cell by cell (Row.Add of the placed Cell values) into new rows attached to {the same table, a fresh table}; full oracle afterwards", depth)}, func(c *Chooser) {
+		b := NewBuilder(cfg)
+		for step := 0; step < depth; step++ {
+			if b.Step(c, step > 0) == "" {
+				break
+			}
+			x.Transition(1)
+		}
+		what := c.Choose(3) // 0 rows, 1 header, 2 both
+		same := c.Bool()
+		dstB := b
+		if !same {
+			dstB = &Builder{Cfg: cfg, T: tabular.New()}
+		}
+		type src struct {
+			cells []tabular.Cell
+			texts []string
+		}
+		var srcs []src
+		if what != 1 {
+			for _, r := range b.Rows {
+				if r.Sep || r.Ptr == nil {
+					continue
+				}
+				srcs = append(srcs, src{r.Ptr.Cells(), r.Cells})
+			}
+		}
+		if what != 0 && b.HasHeader {
+			srcs = append(srcs, src{b.T.Headers(), b.Header})
+		}
+		for _, s := range srcs {
+			nr := tabular.NewRow()
+			for _, cell := range s.cells {
+				nr.Add(cell)
+			}
+			dstB.T.AddRow(nr)
+			texts := append([]string{}, s.texts...)
+			dstB.Rows = append(dstB.Rows, &RefRow{Cells: texts, Ptr: nr, Attached: true})
+			if len(texts) > dstB.MaxEver {
+				dstB.MaxEver = len(texts)
+			}
+		}
+		c.Logf("%d row(s) rebuilt cell by cell (what=%d: 0 rows, 1 header, 2 both) and attached to %s", len(srcs), what, map[bool]string{true: "the same table", false: "a fresh table"}[same])
+		x.Transition(1)
+		c02Oracle(x, dstB, "rows rebuilt cell by cell from placed cells")
+		x.State(fmt.Sprint("cellbycell:", what, same, b.Key()))
+		if len(srcs) > 0 {
+			x.Nontrivial(fmt.Sprint("cellbycell:", what, same, b.Key()))
+		}
+	})
+}
